@@ -13,7 +13,9 @@ import (
 	"fmt"
 	"math"
 	"reflect"
+	"regexp"
 	"sort"
+	"strconv"
 	"strings"
 
 	"verif/harness/sim"
@@ -363,6 +365,9 @@ func (e *Engine) Run(t *tape.Tape, keep bool) *sim.Result {
 		res.Digest = "ctor_table"
 		return res
 	}
+	if t.Draw(24) == 0 {
+		return e.runSizeEdge(t, res, &log)
+	}
 	n := t.Pick(5, 3, 2, 1) + 1
 	if n == 4 {
 		n = t.Range(4, 8)
@@ -490,6 +495,127 @@ func (e *Engine) Run(t *tape.Tape, keep bool) *sim.Result {
 	if len(w) > 4096 {
 		res.Probes["stream_larger_than_bufio_buffer"]++
 	}
+	res.Nontrivial = true
+	res.Digest = log.Digest()
+	sm.Log = log.Lines
+	return res
+}
+
+var overLimit = regexp.MustCompile(`over ([0-9]+) bytes`)
+
+// runSizeEdge: one output event whose JSON body is exactly 2^k-1, 2^k or 2^k+1
+// bytes long (4 KiB .. 8 MiB), followed by a small one. The reader may refuse a
+// body with an error that names a limit ("content length over N bytes") only
+// if the body really is longer than that N - the limit is taken from the
+// reader's own words, not from its source; every accepted body reads back
+// equal, and so does the message after it.
+func (e *Engine) runSizeEdge(t *tape.Tape, res *sim.Result, log *tape.Log) *sim.Result {
+	var mk func() dapb.Message
+	for _, c := range e.ctors {
+		if c.kind == "event" && c.key == "output" {
+			mk = c.mk
+			e.used[c.kind+":"+c.key] = true
+		}
+	}
+	if mk == nil {
+		res.Trouble = "no constructor for the output event"
+		return res
+	}
+	build := func(pad int) (dapb.Message, []byte) {
+		m := mk()
+		v := reflect.ValueOf(m).Elem()
+		v.FieldByName("Event").FieldByName("ProtocolMessage").FieldByName("Type").SetString("event")
+		v.FieldByName("Event").FieldByName("Event").SetString("output")
+		v.FieldByName("Body").FieldByName("Category").SetString("stdout")
+		v.FieldByName("Body").FieldByName("Output").SetString(strings.Repeat("a", pad))
+		j, err := json.Marshal(m)
+		if err != nil {
+			panic(sim.HarnessPanic("size-edge output event does not marshal: " + err.Error()))
+		}
+		return m, j
+	}
+	k := []int{12, 16, 20, 21, 22, 23}[t.Draw(6)]
+	target := 1<<k + t.Draw(3) - 1
+	_, j0 := build(0)
+	big, jbig := build(target - len(j0))
+	small, jsmall := build(1 + t.Draw(40))
+	if len(jbig) != target {
+		res.Trouble = fmt.Sprintf("size-edge body is %d bytes, wanted %d", len(jbig), target)
+		return res
+	}
+	wire := &bytes.Buffer{}
+	for _, m := range []dapb.Message{big, small} {
+		if err := dapb.WriteProtocolMessage(wire, m); err != nil {
+			res.Trouble = "WriteProtocolMessage on bytes.Buffer: " + err.Error()
+			return res
+		}
+	}
+	w := wire.Bytes()
+	sm := &sample{WireLen: len(w), Messages: []string{fmt.Sprintf("event:output with a body of %d bytes", target), "event:output " + clip(jsmall)}}
+	res.Sample = sm
+	log.Add(fmt.Sprintf("sizeedge body=%d wire=%d", target, len(w)))
+	read := func(st *sim.Stream) (oc *outcome) {
+		defer func() {
+			if r := recover(); r != nil {
+				if r == sim.ErrLivelock {
+					oc = &outcome{"not_delivered", "reader spins on an exhausted stream"}
+					return
+				}
+				oc = &outcome{"panic", fmt.Sprint(r)}
+			}
+		}()
+		br := bufio.NewReader(st)
+		for i, want := range [][]byte{jbig, jsmall} {
+			m, err := dapb.ReadProtocolMessage(br)
+			if err != nil {
+				if mm := overLimit.FindStringSubmatch(err.Error()); mm != nil && i == 0 {
+					if n, _ := strconv.Atoi(mm[1]); target > n {
+						res.Probes["size_edge_truthful_refusal"]++
+						return nil
+					}
+				}
+				return &outcome{"read_error", fmt.Sprintf("message %d (body of %d bytes) of 2 completely delivered messages: %v", i, len(want), err)}
+			}
+			b, err := json.Marshal(m)
+			if err != nil || !bytes.Equal(b, want) {
+				return &outcome{"content_mismatch", fmt.Sprintf("message %d (body of %d bytes): decoded %s", i, len(want), clip(b))}
+			}
+		}
+		res.Probes["size_edge_read_back"]++
+		return nil
+	}
+	for i := 0; i < 3; i++ {
+		st := sim.NewStream(nil)
+		st.Buf = w
+		st.SpinLimit = 200
+		fault := "no fault"
+		switch i {
+		case 1:
+			pos := 1 + t.Draw(len(w)-1)
+			st.Bounds = map[int]bool{pos: true}
+			fault = fmt.Sprintf("stream delivered in two reads split at offset %d", pos)
+		case 2:
+			st.MaxChunk = 1 + t.Draw(8192)
+			fault = fmt.Sprintf("every read returns at most %d byte(s)", st.MaxChunk)
+		}
+		oc := read(st)
+		res.Steps++
+		if i == 2 {
+			res.Faults["short"] += st.Reads
+		} else if i == 1 {
+			res.Faults["split"] += st.Fired["split"]
+		}
+		log.Add(fmt.Sprintf("sizeedge %d reads=%d", i, st.Reads))
+		if oc != nil {
+			sm.Fault = fault
+			log.Add("VIOLATION " + oc.class + " " + fault + " " + oc.detail)
+			res.Violation = &sim.Violation{Class: oc.class, Signature: "sizeedge:" + oc.class, Detail: fault + ": " + oc.detail}
+			res.Digest = log.Digest()
+			sm.Log = log.Lines
+			return res
+		}
+	}
+	res.Probes["size_edge_runs"]++
 	res.Nontrivial = true
 	res.Digest = log.Digest()
 	sm.Log = log.Lines
